@@ -86,7 +86,11 @@ prop("C15", True,
      "This is the right level because the matching semantics under permutation/rotation quantifies over float inputs and is not decidable from shape; the clauses above are and each, if broken, yields a concrete asymmetric pair.",
      "Not decided: the greedy matching itself (ambiguous matches, ring rotation by minPt/nextPt). Trusted: go/types resolution; idioms enumerated in checker/c15.go (type switch bound/unbound, comma-ok, len compare, helper call).",
      None)
-prop("C16", False, "", "", "", NOT_YET)
+prop("C16", True,
+     "table extraction (type-name switch, type switch, reflect.TypeOf case list) joined with SSA return types; symbolic part-range loop analysis (dst[j-start]=src[j], start<=j<end) plus affine identity-copy analysis; shape rule for ring closing; constant-folded width inequalities",
+     "(R1) the four-column table type name → shape-type constant → concrete go-shp shape built → geom type rebuilt is consistent for Point, LineString, MultiLineString, Polygon, *Bounds, MultiPoint; (R2) the part-boundary helper is parts[i]..parts[i+1] / len(points), and all 12 geometry copy loops (both directions, M/Z variants included) are identity index maps over the full part or collection range, whatever the loop direction; (R3) rings are closed by appending the first vertex exactly when non-empty and first≠last; (R4) encoder and decoder attribute kinds are both {int,float64,string} and the folded widths satisfy string≥50, int≥10, float precision≥10 and width≥1+17+1+precision.",
+     "Not decided: go-shp's file I/O and dBase formatting, float text round trip to 10 decimals, field-name matching by tag/case, that EncodeFields ignores WriteAttribute errors (noted by errcheck; outside every clause).",
+     None)
 prop("C17", True,
      "emission-grammar extraction: abstract interpretation of the appender functions with every loop unrolled for 1,2,3 members per nesting level, token strings parsed by an OGC WKT recogniser held in the checker; constant-argument rule for strconv; support table",
      "Strong on well-formedness: (R1) for each of the five supported types and all 3^depth member-count combinations (first/middle/last member all occur) the emitted token string is accepted by the OGC BNF, has the member counts of the geometry at every level and lists every coordinate exactly once in storage order, X before Y; (R2) every float is formatted with precision -1, 64 bits, format in eEfgG (shortest round trip); (R3) exactly the five types are encoded and everything else reaches the error return.",
